@@ -72,6 +72,21 @@ def histories(tier):
                     H.append([{"op": "env", "env": "E1", "runner": r, "declare": decl}, {"op": "prog", "env": "E1", "expr": expr},
                               {"op": "eval", "env": "E1", "names": NAMESETS[n1], "vars": "v"},
                               {"op": "eval", "env": "E1", "names": NAMESETS[n2], "vars": "w"}])
+        # an evaluation with *no* bindings after one with bindings (must not see the earlier values)
+        for expr, names in (("x + 1", ["x"]), ("has(m.k)", []), ("a.b", ["a.b"])):
+            H.append([{"op": "env", "env": "E1", "runner": r}, {"op": "prog", "env": "E1", "expr": expr},
+                      {"op": "eval", "env": "E1", "names": names or ["x"], "vars": "v", "mapvar": ("m" if "m.k" in expr else None)},
+                      {"op": "eval", "env": "E1", "names": [], "vars": "w"}])
+            H.append([{"op": "env", "env": "E1", "runner": r}, {"op": "prog", "env": "E1", "expr": expr},
+                      {"op": "eval", "env": "E1", "names": [], "vars": "u"},
+                      {"op": "eval", "env": "E1", "names": names or ["x"], "vars": "v", "mapvar": ("m" if "m.k" in expr else None)},
+                      {"op": "eval", "env": "E1", "names": [], "vars": "w"}])
+        # list-valued bindings: the same bindings object evaluated repeatedly (results equal, object contents unchanged)
+        for expr in ("xs + [3]", "xs + xs", "[0] + xs", "xs.map(e, e + 1) + xs", "size(xs + [1]) + size(xs)"):
+            H.append([{"op": "env", "env": "E1", "runner": r}, {"op": "prog", "env": "E1", "expr": expr},
+                      {"op": "eval", "env": "E1", "names": ["x"], "vars": "v", "listvar": "xs", "keep": "B"},
+                      {"op": "eval", "env": "E1", "names": ["x"], "vars": "v", "listvar": "xs", "keep": "B"},
+                      {"op": "eval", "env": "E1", "names": ["x"], "vars": "v", "listvar": "xs", "keep": "B"}])
         # C: repeated evaluation with the same bindings; packaged + declared environment after a plain one
         H.append([{"op": "env", "env": "E1", "runner": r}, {"op": "prog", "env": "E1", "expr": "a.b + a.c"},
                   {"op": "eval", "env": "E1", "names": ["a.b", "a.c"], "vars": "v"},
@@ -142,12 +157,48 @@ def execute(hist, vals, vars):
             return ct.IntType(vals[name])
         return ct.IntType(mk(SInt, vars[name], vals[name]))
 
+    def snapshot(v):
+        """structure + terms of a binding value (to detect in-place modification)"""
+        if isinstance(v, list):
+            return ("list", [snapshot(x) for x in list.__iter__(v)])
+        if isinstance(v, dict):
+            return ("map", [(snapshot(k), snapshot(x)) for k, x in dict.items(v)])
+        if isinstance(v, int):
+            return ("int", tm(v) if vars is not None else int(v))
+        return ("other", repr(v))
+
+    def same_snapshot(a, b):
+        if a[0] != b[0]:
+            return False
+        if a[0] == "list":
+            return len(a[1]) == len(b[1]) and all(same_snapshot(x, y) for x, y in zip(a[1], b[1]))
+        if a[0] == "map":
+            return len(a[1]) == len(b[1]) and all(same_snapshot(x[0], y[0]) and same_snapshot(x[1], y[1]) for x, y in zip(a[1], b[1]))
+        if a[0] == "int":
+            return a[1].eq(b[1]) if vars is not None else a[1] == b[1]
+        return a[1] == b[1]
+
+    kept = {}
+
     def do_eval(prog, b):
         keys_before = list(b)
         objs_before = {k: v for k, v in b.items()}
+        snap = {k: snapshot(v) for k, v in b.items()}
         kd, r = common.outcome(lambda: prog.evaluate(b))
-        intact = list(b) == keys_before and all(b[k] is objs_before[k] for k in b)
+        intact = list(b) == keys_before and all(b[k] is objs_before[k] for k in b) and all(same_snapshot(snap[k], snapshot(b[k])) for k in b)
         return kd, r, intact
+
+    def bindings_of(st):
+        if st.get("keep") and st["keep"] in kept:
+            return kept[st["keep"]]
+        b = {n: sv(f"{st['vars']}_{n.replace('.', '_')}") for n in st["names"]}
+        if st.get("mapvar"):
+            b = {st["mapvar"]: ct.MapType({ct.StringType("k"): b[st["names"][0]]})}
+        if st.get("listvar"):
+            b = {st["listvar"]: ct.ListType([b[st["names"][0]], ct.IntType(2)])}
+        if st.get("keep"):
+            kept[st["keep"]] = b
+        return b
 
     for st in hist:
         if st["op"] == "env":
@@ -160,8 +211,7 @@ def execute(hist, vals, vars):
             if pk != "value":
                 out = ("construction-" + pk, p, True)
                 continue
-            b = {n: sv(f"{st['vars']}_{n.replace('.', '_')}") for n in st["names"]}
-            out = do_eval(p, b)
+            out = do_eval(p, bindings_of(st))
         elif st["op"] in ("session", "use"):
             if st["op"] == "session":
                 envs[st["env"]] = mkenv(st)
